@@ -25,6 +25,9 @@ pub struct C04 {
   pub max_len: usize,
   pub pre: Option<OpKind>,
   pub post: Option<OpKind>,
+  /// subscribe the recovered observable a second time after the first subscription ended:
+  /// the budget / predicate / resume function apply afresh
+  pub twice: bool,
 }
 
 fn rk_name(k: Rk) -> &'static str {
@@ -38,12 +41,13 @@ fn rk_name(k: Rk) -> &'static str {
 impl Harness for C04 {
   fn name(&self) -> String {
     format!(
-      "C04/{}/A{}/{}/{}/L{}",
+      "C04/{}/A{}/{}/{}/L{}{}",
       rk_name(self.kind),
       self.attempts,
       self.pre.map(|o| o.name()).unwrap_or("-"),
       self.post.map(|o| o.name()).unwrap_or("-"),
-      self.max_len
+      self.max_len,
+      if self.twice { "x2" } else { "" }
     )
   }
   fn fuel(&self) -> i64 {
@@ -62,6 +66,7 @@ impl Harness for C04 {
     }
 
     let exp: RStream;
+    let mut exp2: Option<RStream> = None;
     let mut exp_subs: usize;
     let obs: Obs;
     // the stream of attempt k as the recovery operator sees it
@@ -102,26 +107,34 @@ impl Harness for C04 {
             None => false,
           })
         };
-        // reference
-        let mut items = vec![];
-        let mut end = REnd::Silent;
-        let mut k = 0usize;
-        loop {
-          let s = attempt_stream(k, &scripts);
-          k += 1;
-          items.extend(s.items);
-          match s.end {
-            REnd::Error(p) => {
-              let again = if self.kind == Rk::Retry { n == 0 || k < n } else { p.sym_lt(&c, "ref") };
-              if again && k < 12 {
-                continue;
+        // reference: the attempts of one subscription, starting at the source's `start`-th subscription
+        let reference = |start: usize| -> (RStream, usize) {
+          let mut items = vec![];
+          let mut end = REnd::Silent;
+          let mut k = start;
+          loop {
+            let s = attempt_stream(k, &scripts);
+            k += 1;
+            items.extend(s.items);
+            match s.end {
+              REnd::Error(p) => {
+                let again = if self.kind == Rk::Retry { n == 0 || k - start < n } else { p.sym_lt(&c, "ref") };
+                if again && k - start < 12 {
+                  continue;
+                }
+                end = REnd::Error(p);
               }
-              end = REnd::Error(p);
+              e => end = e,
             }
-            e => end = e,
+            break;
           }
-          break;
+          (RStream { items, end }, k)
+        };
+        let (first, k) = reference(0);
+        if self.twice {
+          exp2 = Some(reference(k).0);
         }
+        let (items, end) = (first.items, first.end);
         exp_subs = k;
         exp = RStream { items, end };
       }
@@ -166,6 +179,9 @@ impl Harness for C04 {
           e => e,
         };
         exp = RStream { items, end };
+        if self.twice {
+          exp2 = Some(exp.clone());
+        }
       }
     }
     let (obs, exp) = match &post {
@@ -194,6 +210,22 @@ impl Harness for C04 {
     exp_subs = 0;
     let _ = exp_subs;
     drop(sub);
+    if let (true, Some(exp2)) = (v.structural.is_none(), exp2) {
+      // the same Observable value subscribed again after the first subscription ended
+      let rec2 = Recorder::new();
+      let sub2 = rec2.subscribe(&obs);
+      let out2 = rec2.take();
+      let v2 = verdict_from(&out2, &exp2, &format!("{};role=second-subscription", sig), &input);
+      drop(sub2);
+      if v2.structural.is_some() {
+        return v2;
+      }
+      v.prop = match (v.prop, v2.prop) {
+        (Some(a), Some(b)) => Some(sym::t_and(vec![a, b])),
+        (a, b) => a.or(b),
+      };
+      v.sample = format!("{} || second subscription: {}", v.sample, v2.sample);
+    }
     v
   }
 }
@@ -202,7 +234,8 @@ pub fn plan(tier: Tier, seed: u64) -> Plan {
   let mut h: Vec<Arc<dyn Harness>> = vec![];
   let (a, l) = if tier == Tier::Quick { (3, 2) } else { (4, 2) };
   for k in [Rk::Retry, Rk::RetryWhen, Rk::Resume] {
-    h.push(Arc::new(C04 { kind: k, attempts: if k == Rk::Resume { 1 } else { a }, max_len: l, pre: None, post: None }));
+    h.push(Arc::new(C04 { kind: k, attempts: if k == Rk::Resume { 1 } else { a }, max_len: l, pre: None, post: None, twice: false }));
+    h.push(Arc::new(C04 { kind: k, attempts: if k == Rk::Resume { 1 } else { 2 }, max_len: l, pre: None, post: None, twice: true }));
     let nest = [
       OpKind::Map,
       OpKind::Filter,
@@ -226,8 +259,8 @@ pub fn plan(tier: Tier, seed: u64) -> Plan {
         continue;
       }
       let at = if k == Rk::Resume { 1 } else { 2 };
-      h.push(Arc::new(C04 { kind: k, attempts: at, max_len: 2, pre: Some(*o), post: None }));
-      h.push(Arc::new(C04 { kind: k, attempts: at, max_len: 2, pre: None, post: Some(*o) }));
+      h.push(Arc::new(C04 { kind: k, attempts: at, max_len: 2, pre: Some(*o), post: None, twice: false }));
+      h.push(Arc::new(C04 { kind: k, attempts: at, max_len: 2, pre: None, post: Some(*o), twice: false }));
     }
   }
   Plan {
@@ -260,6 +293,7 @@ pub fn by_name(name: &str) -> Option<Arc<dyn Harness>> {
     attempts: p[2].trim_start_matches('A').parse().ok()?,
     pre: f(p[3])?,
     post: f(p[4])?,
-    max_len: p[5].trim_start_matches('L').parse().ok()?,
+    max_len: p[5].trim_start_matches('L').trim_end_matches("x2").parse().ok()?,
+    twice: p[5].ends_with("x2"),
   }))
 }
